@@ -16,10 +16,10 @@ import (
 )
 
 var c07Rules = map[string]bool{"record-height-not-above-last": true, "record-content": true, "point-query-content": true, "point-query-missing": true,
-	"record-field-limits": true, "failed-tx-changed-registry": true, "point-query-owner": true, "counter-last": true}
+	"record-field-limits": true, "failed-tx-changed-registry": true, "point-query-owner": true, "counter-last": true, "record-lost-within-retention": true}
 var c08Rules = map[string]bool{"retention-set": true, "counter-num-in-state": true, "counter-lowest": true, "counter-last": true, "limit-mismatch": true,
 	"purchase-above-max": true, "purchase-zero": true, "storage-query-counters": true, "storage-query-max-purchasable": true, "storage-query-error": true,
-	"point-query-pruned-still-served": true, "point-query-missing": true}
+	"point-query-pruned-still-served": true, "point-query-missing": true, "record-lost-within-retention": true}
 var c09Rules = map[string]bool{"next-id": true, "registration-set": true, "registration-missing": true, "owner-changed": true, "fields-changed": true,
 	"regtime-changed": true, "record-by-non-owner": true, "purchase-by-non-owner": true, "record-unknown-id": true, "purchase-unknown-id": true,
 	"register-field-limits": true, "listing-order": true, "failed-tx-changed-registry": true}
